@@ -93,6 +93,8 @@ def check_case(case, ctx):
         ctx.record(case, False, classes + ["ambiguous-threshold"])
         return
     classes.append("result:" + ("empty" if k == 0 else ("full" if k == len(obs) else "partial")))
+    if case.get("xl"):
+        classes.append("very-long-trace")
     for name, cnt in model.rej.items():
         if cnt:
             classes.append(f"binding:{name}")
@@ -132,6 +134,21 @@ def strategy(tier):
 
     @st.composite
     def _s(draw):
+        if draw(st.integers(0, 149)) == 0:
+            # a very long trace (700-900 observations creeping along a straight road, each about 1.5 sigma off): the total
+            # log-probability goes far below -745 (where exp() underflows) while the normalised probability stays above the
+            # cut-off, so the whole trace is explainable
+            n_obs = draw(st.sampled_from([700, 800, 900]))
+            fam = draw(st.sampled_from(["simple", "distance"]))
+            sigma = draw(st.sampled_from([1.0, 2.0]))
+            L = 50.0 * sigma
+            off = draw(st.sampled_from([1.5, 1.4, -1.5])) * sigma
+            g = [[1, [0.0, 0.0], [2]], [2, [0.0, L], [1, 3]], [3, [0.0, 2 * L], [2]]]
+            t = [[off, round(i * 2 * L / n_obs, 6)] for i in range(n_obs)]
+            cfg = {"family": fam, "obs_noise": sigma, "max_dist": draw(st.sampled_from([None, 3.0 * sigma])), "max_dist_init": None,
+                   "min_prob_norm": draw(st.sampled_from([0.2, 0.25, None])), "non_emitting_states": False,
+                   "max_lattice_width": None, "avoid_goingback": False}
+            return {"graph": g, "trace": t, "config": cfg, "also_sqlite": False, "xl": True}
         kinds = ("int", "int", "str") if draw(st.booleans()) else ("int", "str")
         case = draw(gen.match_case(max_nodes=sz["max_nodes"], max_len=sz["max_len"],
                                    graph_kw={"label_kinds": kinds},
